@@ -72,6 +72,9 @@ pub struct Workload {
 
     // When K completes also mark all entries in V complete
     also_completes: HashMap<AnyWorkId, Vec<AnyWorkId>>,
+    // Glyphs whose BE work was completed without running it because their IR
+    // was not exported; see update_be_glyph_work
+    be_glyphs_skipped: HashSet<GlyphName>,
     pub(crate) jobs_pending: HashMap<AnyWorkId, Job>,
     pub(crate) count_pending: HashMap<IdentifierDiscriminant, Arc<AtomicUsize>>,
 
@@ -138,6 +141,7 @@ impl Workload {
             error: Default::default(),
             n_failures: 0,
             also_completes: Default::default(),
+            be_glyphs_skipped: Default::default(),
             jobs_pending: Default::default(),
             count_pending: Default::default(),
             skip_features,
@@ -327,7 +331,7 @@ impl Workload {
         let glyph = fe_root
             .glyphs
             .get(&FeWorkIdentifier::Glyph(glyph_name.clone()));
-        let be_id = AnyWorkId::Be(BeWorkIdentifier::GlyfFragment(glyph_name));
+        let be_id = AnyWorkId::Be(BeWorkIdentifier::GlyfFragment(glyph_name.clone()));
 
         // If the inputs to the BE glyph didn't change it won't be pending
         let Some(be_job) = self.jobs_pending.get_mut(&be_id) else {
@@ -336,6 +340,7 @@ impl Workload {
 
         if !glyph.emit_to_binary {
             trace!("Skipping execution of {be_id:?}; it does not emit to binary");
+            self.be_glyphs_skipped.insert(glyph_name);
             for counter in self.counters(&be_id) {
                 counter.fetch_sub(1, Ordering::AcqRel);
             }
@@ -387,7 +392,31 @@ impl Workload {
         if let AnyWorkId::Fe(FeWorkIdentifier::GlyphOrder) = success {
             let preliminary_glyph_order = fe_root.preliminary_glyph_order.get();
             let final_glyph_order = fe_root.glyph_order.get();
-            for glyph_name in final_glyph_order.difference(&preliminary_glyph_order) {
+            // Glyph order can put a glyph into the final order under the name of
+            // a source glyph that is not exported (a non-export '.notdef' is
+            // replaced by a synthesized one). The BE work for that name was
+            // skipped, so it counts as done: forget that, it has to run now.
+            let replaced: Vec<_> = final_glyph_order
+                .names()
+                .filter(|name| self.be_glyphs_skipped.contains(*name))
+                .cloned()
+                .collect();
+            for glyph_name in replaced.iter() {
+                self.be_glyphs_skipped.remove(glyph_name);
+                let be_id = AnyWorkId::Be(BeWorkIdentifier::GlyfFragment(glyph_name.clone()));
+                for id in self.also_completes.get(&be_id).cloned().unwrap_or_default() {
+                    if self.success.remove(&id) {
+                        self.job_count -= 1;
+                    }
+                }
+                if self.success.remove(&be_id) {
+                    self.job_count -= 1;
+                }
+            }
+            for glyph_name in final_glyph_order
+                .difference(&preliminary_glyph_order)
+                .chain(replaced.iter())
+            {
                 debug!("Generating a BE job for {glyph_name}");
                 self.add(create_glyf_work(glyph_name.clone()));
 
